@@ -1032,3 +1032,15 @@ func init() {
 		return as(w, c, err, target, pt.Elem(), ptr, 0), true
 	}
 }
+
+// par.ErrCache[K,V].Do / par.Cache.Do: in-process single-flight over sync.Map;
+// modelled as "call f" (single goroutine; deduplication across goroutines is
+// outside the C16 claim).
+func init() {
+	genericExternals = append(genericExternals, genericExternal{prefix: "(*cuelang.org/go/internal/par.ErrCache[", fn: func(w *world, c *frame, fn *ssa.Function, args []value) (value, bool) {
+		if fn.Name() != "Do" || len(args) != 3 {
+			return nil, false
+		}
+		return w.call(c, 0, args[2], nil), true
+	}})
+}
